@@ -955,6 +955,7 @@ func (e *c02Env) genuine(b *c02Block) {
 type c02RPC struct {
 	mu    sync.Mutex
 	serve map[string][]byte
+	raw   bool
 }
 
 func (s *c02RPC) HistoryGetContent(key string) (*portalwire.ContentInfo, error) {
@@ -963,6 +964,9 @@ func (s *c02RPC) HistoryGetContent(key string) (*portalwire.ContentInfo, error) 
 	d, ok := s.serve[key]
 	if !ok {
 		return nil, errors.New("content not found")
+	}
+	if s.raw {
+		return &portalwire.ContentInfo{Content: string(d)}, nil // an endpoint that does not answer with hex
 	}
 	return &portalwire.ContentInfo{Content: hexutil.Encode(d)}, nil
 }
@@ -1009,28 +1013,73 @@ func (o *c02OracleEnv) orc(kind string, hash []byte, served []byte) {
 	o.e.c.Emit("orc %s %s %s | %s", hx(hash), sv, H, out)
 }
 
+// the endpoint answers with a string that is not hex: orcraw <hash> <string as hex> | err
+func (o *c02OracleEnv) orcRaw(hash []byte, raw []byte) {
+	o.api.mu.Lock()
+	o.api.serve = map[string][]byte{hexutil.Encode(append([]byte{0}, hash...)): raw}
+	o.api.mu.Unlock()
+	out := c02obs(func() error { _, err := o.oracle.GetBlockHeaderByHash(hash); return err })
+	o.e.c.Count("orc_raw_" + out[:2])
+	o.e.c.Emit("orcraw %s %s | %s", hx(hash), hx(raw), out)
+}
+
 // ---------------------------------------------------------------- two live nodes: validateContents and the getters
 
+type c02Event struct {
+	kind byte // 'g' Get found, 'n' Get not found, 'x' Get failed, 'p' Put stored, 'f' Put failed, 'v' validator accepted, 'r' validator rejected
+	key  string
+}
+
 type c02Storage struct {
-	mu   sync.Mutex
-	db   map[string][]byte
-	puts []string
+	mu      sync.Mutex
+	db      map[string][]byte
+	puts    []string
+	failGet bool // scripted fault: Get returns an error other than ErrContentNotFound
+	failPut bool // scripted fault: Put returns an error and stores nothing
+	ev      chan c02Event
+}
+
+func (s *c02Storage) emit(kind byte, key []byte) {
+	if s.ev != nil {
+		select {
+		case s.ev <- c02Event{kind, string(key)}:
+		default:
+		}
+	}
 }
 
 func (s *c02Storage) Get(contentKey []byte, contentId []byte) ([]byte, error) {
 	s.mu.Lock()
 	defer s.mu.Unlock()
+	if s.failGet {
+		s.emit('x', contentKey)
+		return nil, errors.New("scripted storage read failure")
+	}
 	if v, ok := s.db[string(contentId)]; ok {
+		s.emit('g', contentKey)
 		return v, nil
 	}
+	s.emit('n', contentKey)
 	return nil, storage.ErrContentNotFound
 }
 func (s *c02Storage) Put(contentKey []byte, contentId []byte, content []byte) error {
 	s.mu.Lock()
 	defer s.mu.Unlock()
+	if s.failPut {
+		s.emit('f', contentKey)
+		return errors.New("scripted storage write failure")
+	}
 	s.db[string(contentId)] = append([]byte{}, content...)
 	s.puts = append(s.puts, hx(contentKey)+":"+hx(content))
+	s.emit('p', contentKey)
 	return nil
+}
+
+// poke writes straight into the database (fault injection: the store holds bytes that never passed the gate)
+func (s *c02Storage) poke(contentId []byte, content []byte) {
+	s.mu.Lock()
+	s.db[string(contentId)] = append([]byte{}, content...)
+	s.mu.Unlock()
 }
 func (s *c02Storage) Radius() *uint256.Int { return storage.MaxDistance }
 func (s *c02Storage) Close() error          { return nil }
@@ -1038,6 +1087,7 @@ func (s *c02Storage) reset() {
 	s.mu.Lock()
 	s.db = map[string][]byte{}
 	s.puts = nil
+	s.failGet, s.failPut = false, false
 	s.mu.Unlock()
 }
 func (s *c02Storage) takePuts() string {
@@ -1052,11 +1102,13 @@ func (s *c02Storage) takePuts() string {
 }
 
 type c02Node struct {
-	pp *portalwire.PortalProtocol
-	st *c02Storage
+	pp    *portalwire.PortalProtocol
+	st    *c02Storage
+	queue chan *portalwire.ContentElement
 }
 
-func c02StartNode(boot []*enode.Node) (*c02Node, error) {
+// start = false leaves Start() to the caller (history.Network.Start starts the protocol AND processContentLoop)
+func c02StartNode(boot []*enode.Node, start bool) (*c02Node, error) {
 	conf := portalwire.DefaultPortalProtocolConfig()
 	conf.VersionsCacheTTL = 5 * time.Minute
 	conf.ListenAddr = "127.0.0.1:0"
@@ -1098,10 +1150,12 @@ func c02StartNode(boot []*enode.Node) (*c02Node, error) {
 	if err != nil {
 		return nil, err
 	}
-	if err := pp.Start(); err != nil {
-		return nil, err
+	if start {
+		if err := pp.Start(); err != nil {
+			return nil, err
+		}
 	}
-	return &c02Node{pp: pp, st: st}, nil
+	return &c02Node{pp: pp, st: st, queue: contentQueue}, nil
 }
 
 type c02Net struct {
@@ -1109,20 +1163,30 @@ type c02Net struct {
 	a, b   *c02Node // a = node under test (recording storage), b = the "network": serves whatever the harness stores
 	net    *history.Network
 	remote map[string]bool
+	rpcOracle *validation.ValidationOracle
+	val    *c02Validator    // what the networks below call: the real validator, or a scripted verdict
+	ev     chan c02Event
 }
 
 func c02StartNet(e *c02Env) (*c02Net, error) {
 	log.SetDefault(log.NewLogger(log.DiscardHandler()))
-	b, err := c02StartNode(nil)
+	b, err := c02StartNode(nil, true)
 	if err != nil {
 		return nil, err
 	}
-	a, err := c02StartNode([]*enode.Node{b.pp.Self()})
+	a, err := c02StartNode([]*enode.Node{b.pp.Self()}, false)
 	if err != nil {
+		return nil, err
+	}
+	ev := make(chan c02Event, 4096)
+	a.st.ev = ev
+	val := &c02Validator{inner: e.val, script: 'r', ev: ev}
+	n := &c02Net{e: e, a: a, b: b, net: history.NewHistoryNetwork(a.pp, val), remote: map[string]bool{}, val: val, ev: ev}
+	// the REAL start-up path: Network.Start starts the portal protocol and processContentLoop on a's content queue
+	if err := n.net.Start(); err != nil {
 		return nil, err
 	}
 	a.pp.AddEnr(b.pp.Self())
-	n := &c02Net{e: e, a: a, b: b, net: history.NewHistoryNetwork(a.pp, e.val), remote: map[string]bool{}}
 	// wait until a lookup from a reaches b
 	probe := []byte{0xfe, 1, 2, 3}
 	_ = b.pp.Put(probe, b.pp.ToContentId(probe), []byte("probe"))
@@ -1283,6 +1347,18 @@ func c02replay(c *Ctx, lines []string) {
 				served = unhx(f[2])
 			}
 			o.orc("replay", unhx(f[1]), served)
+		case "orcraw":
+			o := c02NewOracleEnv(e)
+			o.api.raw = true
+			o.orcRaw(unhx(f[1]), unhx(f[2]))
+		case "gf", "of", "loop", "drop", "orcnet":
+			if n == nil {
+				var err error
+				if n, err = c02StartNet(e); err != nil {
+					panic(err)
+				}
+			}
+			c02GlueReplay(n, f)
 		case "hist":
 			if n == nil {
 				var err error
@@ -1463,6 +1539,10 @@ func runC02(c *Ctx) {
 			o.orc("body_bytes", b.hash, b.bodyC)
 		}
 	}
+	o.api.raw = true
+	o.orcRaw(all[0].hash, []byte("zz-not-hex"))
+	o.orcRaw(all[0].hash, []byte("0x0"))
+	o.api.raw = false
 	o.orc("empty", all[0].hash, []byte{})
 	o.orc("shorthash", []byte{1, 2, 3}, all[0].hdrC)
 
@@ -1473,6 +1553,7 @@ func runC02(c *Ctx) {
 			panic(err)
 		}
 		c02Histories(n, all, thorough)
+		c02Glue(n, all, thorough)
 	}
 }
 
